@@ -3,6 +3,7 @@
 use crate::engine::{check_invariants, Monitors, Session, Step};
 use crate::gen::GenCfg;
 use crate::model::Op;
+use crate::panicmon::guarded;
 use crate::prng::{fnv, Rng};
 use crate::props::hist::{self, HistCfg};
 use crate::report::{parallel, Report};
@@ -105,6 +106,21 @@ fn directed_steps() -> Vec<(&'static str, Vec<Step>)> {
                 Step::Close(Flush),
             ],
         ),
+        // the empty string is the format's null: in a column that is not nullable it must not end up stored
+        (
+            "empty-string-in-non-nullable-column",
+            vec![
+                create("N", &vec![ColDef::new("K", CT::Int16).key(), ColDef::new("S", CT::Str(8))]),
+                ins("N", vec![vec![V::Int(1), V::s("")]]),
+                ins("N", vec![vec![V::Int(2), V::s("t0x2")]]),
+                d(Op::Update { table: "N".into(), sets: vec![("S".into(), V::s(""))], cond: None }),
+                Step::Close(IntoInner),
+            ],
+        ),
+        (
+            "empty-string-in-non-nullable-key",
+            vec![create("NK", &vec![ColDef::new("K", CT::Str(8)).key(), ColDef::new("V", CT::Int16).nullable()]), ins("NK", vec![vec![V::s(""), V::Int(1)]]), ins("NK", vec![vec![V::s("t0x1"), V::Int(2)]]), Step::Close(Flush)],
+        ),
         (
             "null-then-empty-string-key",
             vec![create("S", &sk), ins("S", vec![vec![V::Null, V::Int(1)]]), ins("S", vec![vec![V::s(""), V::Int(2)]]), Step::Close(IntoInner)],
@@ -151,6 +167,57 @@ fn directed_steps() -> Vec<(&'static str, Vec<Step>)> {
     ]
 }
 
+/// Keys that the database code page cannot represent: distinct in memory, one key (`?`) in the saved file.
+/// Own signatures (not the generic invariant ones), so that a known finding here cannot hide another defect.
+fn lossy_codepage_keys(rep: &mut Report) {
+    use crate::medium::Medium;
+    use crate::observe::read_table;
+    let scen: [(&str, i32, bool, [&str; 2]); 4] = [
+        ("dupkey-after-reopen/cp1252", 1252, true, ["日", "本"]),
+        ("dupkey-after-reopen/cp20127", 20127, true, ["é", "è"]),
+        ("dupkey-after-codepage-change/cp1252", 1252, false, ["日", "本"]),
+        ("order-after-reopen/cp1252", 1252, true, ["B", "日"]),
+    ];
+    for (name, page, page_first, keys) in scen {
+        let med = Medium::new();
+        let r = guarded(|| -> Result<Option<String>, String> {
+            let mut p = msi::Package::create(msi::PackageType::Installer, med.handle()).map_err(|e| e.to_string())?;
+            let cp = crate::cpora::msi_page(page).ok_or("page")?;
+            if page_first {
+                p.set_database_codepage(cp);
+            }
+            p.create_table("L", vec![msi::Column::build("K").primary_key().string(8), msi::Column::build("N").nullable().int16()]).map_err(|e| e.to_string())?;
+            for (i, k) in keys.iter().enumerate() {
+                if p.insert_rows(msi::Insert::into("L").row(vec![msi::Value::from(*k), msi::Value::Int(i as i32)])).is_err() {
+                    // refusing a key that cannot be stored faithfully is fine
+                    return Ok(None);
+                }
+            }
+            if !page_first {
+                p.set_database_codepage(cp);
+            }
+            p.into_inner().map_err(|e| e.to_string())?;
+            let mut q = msi::Package::open(std::io::Cursor::new(med.live())).map_err(|e| format!("reopen failed: {}", e))?;
+            let mut issues = crate::observe::ApiIssues::default();
+            let t = read_table(&mut q, "L", &mut issues)?;
+            Ok(crate::engine::check_table_invariants("L", &t).err().map(|f| format!("{}: {}", f.clause, f.what)))
+        });
+        rep.case(Some(fnv(format!("lossy:{}", name).as_bytes())));
+        rep.count("lossy_codepage_scenarios");
+        let w = json!({"kind": "lossy-codepage", "name": name});
+        match r {
+            Ok(Ok(None)) => {}
+            Ok(Ok(Some(what))) => rep.violation(
+                format!("C05/lossy-code-page-keys/{}", name),
+                format!("keys {:?} (not representable in code page {}) were accepted as distinct; after save and reopen: {}", keys, page, what),
+                w,
+            ),
+            Ok(Err(e)) => rep.violation(format!("C05/lossy-code-page-keys/{}/error", name), e, w),
+            Err(p) => rep.violation(format!("C05/panic/{}", p.signature()), p.message, w),
+        }
+    }
+}
+
 pub fn run(ctx: &Ctx) -> Report {
     let base = hist::alpha_base();
     if let Some(w) = &ctx.replay {
@@ -160,6 +227,7 @@ pub fn run(ctx: &Ctx) -> Report {
                 let word: Vec<char> = w["word"].as_str().unwrap_or("").chars().collect();
                 run_steps(&mut rep, "Installer", Some(&base), &hist::expand(&word), w.clone(), 0);
             }
+            Some("lossy-codepage") => lossy_codepage_keys(&mut rep),
             Some("directed") => {
                 for (name, steps) in directed_steps() {
                     if Some(name) == w["name"].as_str() {
@@ -183,6 +251,9 @@ pub fn run(ctx: &Ctx) -> Report {
                 run_steps(&mut rep, "Installer", None, &steps, json!({"kind": "directed", "name": name}), fnv(name.as_bytes()));
                 rep.count("directed_scenarios");
             }
+        }
+        if shard == 1 % n {
+            lossy_codepage_keys(&mut rep);
         }
         hist::for_each_word(&KEY_LETTERS, depth, shard, n, |idx, word| {
             let w: String = word.iter().collect();
